@@ -512,6 +512,48 @@ pub fn stream_len(ops: &[WOp]) -> usize {
     pos
 }
 
+/// Where each non-empty content piece of a VALID history lies: (file name, offset in the file,
+/// offset of its first data byte in the file-layer stream, length). Same arithmetic as `stream_len`.
+pub fn content_extents(ops: &[WOp]) -> Vec<(String, usize, usize, usize)> {
+    let mut out = Vec::new();
+    let mut names: BTreeMap<usize, (String, usize)> = BTreeMap::new();
+    let mut pos = 0usize;
+    for op in ops {
+        match op {
+            WOp::Start { f, name } => {
+                let n = name.string();
+                pos += 17 + n.len();
+                names.insert(*f, (n, 0));
+            }
+            WOp::Append { f, data, .. } => {
+                if let Some((n, off)) = names.get_mut(f) {
+                    if data.len() > 0 {
+                        out.push((n.clone(), *off, pos + 17, data.len()));
+                        *off += data.len();
+                        pos += 17 + data.len();
+                    }
+                }
+            }
+            WOp::End { f } => {
+                if names.contains_key(f) {
+                    pos += 41;
+                }
+            }
+            WOp::Add { name, data, .. } => {
+                let n = name.string();
+                pos += 17 + n.len();
+                if data.len() > 0 {
+                    out.push((n, 0, pos + 17, data.len()));
+                    pos += 17 + data.len();
+                }
+                pos += 41;
+            }
+            _ => {}
+        }
+    }
+    out
+}
+
 /// Grow one non-empty piece so that the file-layer stream length becomes `residue` modulo
 /// `modulus` (how "plaintext length = k * CHUNK" or "= k * BLOCK" is hit on purpose instead
 /// of once in 131072 / 4194304). Returns false if the history has no non-empty piece.
